@@ -407,3 +407,11 @@ MUTANTS = [
 ]
 
 EQUIVS = []
+
+# functions whose syntactic mutants are used for the thorough tier's sensitivity figure (sa/automut.py)
+ANCHORS = [
+    "nostr_relay.web:start_client",
+    "nostr_relay.storage.db:DBStorage.add_event",
+    "nostr_relay.storage.kv:LMDBStorage.add_event",
+    "nostr_relay.storage.kv:WriterThread.run",
+]
